@@ -22,7 +22,7 @@ def describe(tier):
 
 
 def shards(tier, seed):
-    ts = universe.universe(tier)
+    ts = universe.universe(tier, "all+3" if tier == "thorough" else "all")
     out = [("cons", c) for c in cons.chunk(ts, 48 if tier == "quick" else 160)]
     vm = ["ramp"] if tier == "quick" else ["ramp", "extreme", "minimal"]
     out += [("hist", t, v, p) for t in universe.rh(tier) for v in vm for p in ("dirtyhole", "cap0")]
